@@ -727,3 +727,137 @@ func TestVerifReplay(t *testing.T) {
 }
 ''' % {'safe': 'true' if safe else 'false', 'vt': vt, 'nt': nt, 'pay': pay}
         return 'variants', src
+
+
+@family(r'/variants\.AbstractVariantOperations\)\.')
+class OpsFamily(Family):
+    """operands rebuilt from their variant types and integer payloads; the operator is run under both
+    managers and compared with the host arithmetic of the first operand's type"""
+
+    def inputs(self):
+        ps = {p['n'] for p in self.func.params}
+        d = {}
+        for v in ('value1', 'value2', 'value'):
+            if v in ps:
+                d[v + '_t'] = v + '.typ'
+                d[v + '_i'] = v + '.value.(int)'
+                d[v + '_l'] = v + '.value.(int64)'
+                d[v + '_n'] = 'len(' + v + '.value.([]*Variant))'
+        return d
+
+    def bounds(self):
+        b = []
+        for v in ('value1', 'value2', 'value'):
+            if v + '_t' in self.inputs():
+                b.append('%s.typ == Integer ==> -50 <= %s.value.(int) && %s.value.(int) <= 50' % (v, v, v))
+                b.append('%s.typ == Long ==> -50 <= %s.value.(int64) && %s.value.(int64) <= 50' % (v, v, v))
+                b.append('%s.typ == Array ==> len(%s.value.([]*Variant)) <= 3' % (v, v))
+        return b
+
+    def operand(self, vals, v):
+        t = vals.get(v + '_t', 1)
+        if not isinstance(t, int) or t < 0 or t > 10:
+            t = 1
+        p = 0
+        if t == 1 and isinstance(vals.get(v + '_i'), int):
+            p = vals[v + '_i']
+        if t == 2 and isinstance(vals.get(v + '_l'), int):
+            p = vals[v + '_l']
+        if abs(p) > 10 ** 6:
+            p = 3
+        n = vals.get(v + '_n', 1)
+        if not isinstance(n, int) or n < 0 or n > 3:
+            n = 1
+        return 'mkop(%d, %d, %d)' % (t, p, n)
+
+    def test_source(self, vals):
+        name = self.func.short
+        unary = name in ('Not', 'Negative')
+        v1 = self.operand(vals, 'value' if unary else 'value1')
+        v2 = 'nil' if unary else self.operand(vals, 'value2')
+        src = '''package variants
+
+import (
+	"math"
+	"testing"
+	"time"
+)
+
+func mkop(typ int, p int, n int) *Variant {
+	switch VariantType(typ) {
+	case Null: return EmptyVariant()
+	case Integer: return VariantFromInteger(p)
+	case Long: return VariantFromLong(int64(p))
+	case Float: return VariantFromFloat(float32(p) + 0.5)
+	case Double: return VariantFromDouble(float64(p) + 0.25)
+	case String: return VariantFromString("abc")
+	case Boolean: return VariantFromBoolean(p%%2 != 0)
+	case DateTime: return VariantFromDateTime(time.Unix(int64(1000+p), 0))
+	case TimeSpan: return VariantFromTimeSpan(time.Duration(p) * time.Millisecond)
+	case Array:
+		l := []*Variant{}
+		for i := 0; i < n; i++ { l = append(l, VariantFromInteger(i)) }
+		return VariantFromArray(l)
+	}
+	return VariantFromObject(struct{ A int }{p})
+}
+
+func applyOp(ops IVariantOperations, name string, a, b *Variant) (*Variant, error) {
+	switch name {
+	case "Add": return ops.Add(a, b)
+	case "Sub": return ops.Sub(a, b)
+	case "Mul": return ops.Mul(a, b)
+	case "Div": return ops.Div(a, b)
+	case "Mod": return ops.Mod(a, b)
+	case "Pow": return ops.Pow(a, b)
+	case "And": return ops.And(a, b)
+	case "Or": return ops.Or(a, b)
+	case "Xor": return ops.Xor(a, b)
+	case "Lsh": return ops.Lsh(a, b)
+	case "Rsh": return ops.Rsh(a, b)
+	case "Not": return ops.Not(a)
+	case "Negative": return ops.Negative(a)
+	case "Equal": return ops.Equal(a, b)
+	case "NotEqual": return ops.NotEqual(a, b)
+	case "More": return ops.More(a, b)
+	case "Less": return ops.Less(a, b)
+	case "MoreEqual": return ops.MoreEqual(a, b)
+	case "LessEqual": return ops.LessEqual(a, b)
+	case "In": return ops.In(a, b)
+	case "GetElement": return ops.GetElement(a, b)
+	}
+	return nil, nil
+}
+
+func TestVerifReplay(t *testing.T) {
+	name := "%(name)s"
+	for _, ops := range []IVariantOperations{NewTypeUnsafeVariantOperations(), NewTypeSafeVariantOperations()} {
+		a, b := %(v1)s, %(v2)s
+		r, err := applyOp(ops, name, a, b) // a panic here fails the test: undefined operations must be errors
+		if (r != nil) == (err != nil) { t.Fatalf("%%s: result %%v and error %%v", name, r, err) }
+		if b == nil || a.Type() == Null || b.Type() == Null { continue }
+		numeric := func(v *Variant) bool { return v.Type() == Integer || v.Type() == Long || v.Type() == Float || v.Type() == Double }
+		if name == "Pow" && numeric(a) && b.Type() == a.Type() {
+			if err != nil { t.Fatalf("'^' rejected numeric operands of type %%d: %%v", a.Type(), err) }
+			toF := func(v *Variant) float64 { c, _ := NewTypeUnsafeVariantOperations().Convert(v, Double); return c.AsDouble() }
+			if want := math.Pow(toF(a), toF(b)); r.AsDouble() != want && !(math.IsNaN(want) && math.IsNaN(r.AsDouble())) { t.Fatalf("%%v ^ %%v = %%v, true exponentiation gives %%v", toF(a), toF(b), r.AsDouble(), want) }
+		}
+		if a.Type() == Integer && b.Type() == Integer && err == nil {
+			x, y := a.AsInteger(), b.AsInteger()
+			want, ok := 0, true
+			switch name {
+			case "Add": want = x + y
+			case "Sub": want = x - y
+			case "Mul": want = x * y
+			case "Div": want = x / y
+			case "Mod": want = x %% y
+			case "Lsh": want = x << y
+			case "Rsh": want = x >> y
+			default: ok = false
+			}
+			if ok && r.AsInteger() != want { t.Fatalf("%%d %%s %%d = %%d, host arithmetic gives %%d", x, name, y, r.AsInteger(), want) }
+		}
+	}
+}
+''' % {'name': name, 'v1': v1, 'v2': v2}
+        return 'variants', src
